@@ -497,6 +497,8 @@ func main() {
 		runPrograms(a, r, n)
 	case "bounds":
 		runBounds(a, r, n)
+	case "disj":
+		runDisj(a, r, n)
 	case "corpus":
 		runCorpus(a)
 	case "filecheck":
